@@ -1,15 +1,20 @@
 package main
 
 import (
+	"context"
 	"fmt"
+	"io"
 	"os"
 	"reflect"
 	"sort"
 	"strconv"
 	"strings"
 	"syscall"
+	"time"
 
+	"github.com/criyle/go-sandbox/container"
 	"github.com/criyle/go-sandbox/pkg/forkexec"
+	"github.com/criyle/go-sandbox/runner"
 )
 
 func init() { props["C06"] = runC06 }
@@ -342,6 +347,45 @@ func runC06(res *Result, d *Driver, tier string, seed uint64) {
 		for n := range taken {
 			syscall.Close(n)
 		}
+	}
+	// the same contract inside a container: the launcher there is the container init, whose own descriptors (its stdio
+	// included) must not reach the program — also when the caller lists fewer than three descriptors
+	if env, err := newEnv(container.Builder{}); err == nil {
+		for nf := 0; nf <= 4; nf++ {
+			var files []uintptr
+			var keep []*os.File
+			var want []string
+			for k := 0; k < nf; k++ {
+				fh, _ := os.Create(fmt.Sprintf("%s/ct-src-%d-%d", tmp, nf, k))
+				keep = append(keep, fh)
+				files = append(files, fh.Fd())
+				var st syscall.Stat_t
+				syscall.Fstat(int(fh.Fd()), &st)
+				want = append(want, fmt.Sprintf("%d:%d.%d:0", k, st.Dev, st.Ino))
+			}
+			pf := openProbe()
+			ctx, cancel := context.WithTimeout(context.Background(), 20*time.Second)
+			r := env.Execve(ctx, container.ExecveParam{Args: []string{"/bin/true", "report fds /w/rep;exit 0"}, Env: []string{"PATH=/usr/bin:/bin"}, Files: files, ExecFile: pf.Fd()})
+			cancel()
+			pf.Close()
+			for _, fh := range keep {
+				fh.Close()
+			}
+			got := "unreadable"
+			if rs, e := env.Open([]container.OpenCmd{{Path: "/w/rep", Flag: os.O_RDONLY}}); e == nil && len(rs) == 1 && rs[0].Err == nil {
+				b, _ := io.ReadAll(rs[0].File)
+				rs[0].File.Close()
+				got = strings.TrimSpace(strings.TrimPrefix(strings.TrimSpace(string(b)), "fds"))
+			}
+			env.Reset()
+			desc := fmt.Sprintf("container Execve with %d listed descriptors", nf)
+			res.Case(desc, true, "container-start")
+			res.Traces++
+			if r.Status != runner.StatusNormal || got != strings.Join(want, " ") {
+				res.Mismatch(Mismatch{Kind: "oracle", What: "container: the program's descriptor table is exactly the caller's list (nothing of the container init, its stdio included) (C06)", Input: desc, Impl: fmt.Sprintf("%v %s | table: %s", r.Status, r.Error, got), Model: strings.Join(want, " "), Oracle: "violates"})
+			}
+		}
+		env.Close()
 	}
 	res.Sample("real: files=[src@23 src@23 closeMarker /dev/null] exec=24 -> probe reports 0,1,3 with the sources' inodes, nothing else")
 }
